@@ -150,6 +150,22 @@ PROPS = {
                              "byte-level correspondence only)"],
         assumptions=["at most one supported-groups and one point-formats extension (the specification is silent otherwise)"],
     ),
+    "C12": dict(
+        modules=["HT.Props.C12"],
+        streams=["c12auth"],
+        gen=True,
+        rule="ssh-simulator (real x/crypto/ssh client over loopback TCP): 17 credential sets (empty, wildcard, pairs incl. "
+             "empty user/password, malformed entries) x the 16 user/password attempts; ldap: the same sets x all 16 single "
+             "binds with DN spellings (cn=, sn=, ',rest') and seeded sequences of 1..4 binds, a gated operation "
+             "(add/modify/delete/modifyDN/compare) probed before and after every bind; ftp: USER/PASS pairs over 5x4 values "
+             "with gated file/directory command probes around them, seeded command sequences, and every gated command "
+             "before any login; events checked for every attempt; non-trivial = a non-empty credential set / more than "
+             "one operation; distinct = distinct case line",
+        trusted=COMMON_TB + ["extract/ (go/ast) regenerating HT.Gen.ftpCommands from services/ftp/cmd.go on every run",
+                             "golang.org/x/crypto/ssh, go-asn1-ber (library parsing, not modelled)"],
+        assumptions=["'succeeds' = the connection becomes authenticated; the ldap anonymous bind (empty name and password) "
+                     "is answered with success and authenticates nobody; ftp's credential set is its fixed user table"],
+    ),
 }
 
 HOOK_COMMITS = ["0596fc6", "c47bf54", "a8020ca"]
@@ -158,6 +174,18 @@ NOT_BUILT = "check not built yet in this round (design in DESIGN.md section 7); 
 NOT_APPLICABLE = {("C%02d" % i): NOT_BUILT for i in range(1, 21)}
 
 MANIFEST_TEXT = {
+    "C12": dict(
+        text="Lean theorems: the ssh callback accepts iff the wildcard or exactly the presented pair is configured, with no "
+             "state between attempts; an ldap bind is answered success iff the wildcard or name:password (name as evaluated) "
+             "is configured, independently of the connection state, and authenticates exactly then; gated ldap operations "
+             "stay refused through any sequence of failed binds; ftp PASS logs in iff the pair is in the user table; every "
+             "file/directory command of the command table regenerated from cmd.go requires authentication and the "
+             "dispatcher refuses such commands while nobody is logged in; only a 230 changes the login state.",
+        design_ref="DESIGN.md section 7, C12",
+        note="Trusted: Lean kernel; model HT.Auth; the go/ast extractor for the FTP command table; x/crypto/ssh and the BER "
+             "library; harness. Event clause checked by the correspondence oracle only.",
+        technique="Lean 4 proof over decision functions + regenerated command table (decide) + differential correspondence",
+    ),
     "C13": dict(
         text="Lean theorems: for every well-formed hello the JA3 string computed from its wire-form extension list equals "
              "the specification's (version, suites, extension types, curves, point formats in wire order, GREASE removed "
